@@ -216,15 +216,14 @@ def belowLimitBlocking (s : Globals) (r : Runtime) (m : Machine) (replace : Bool
 
 def belowLimitPadding (s : Globals) (r : Runtime) (m : Machine) : Bool :=
   if r.acct.paddingSent < m.allowedPaddingPackets then decide (r.stateLimit > 0) else
-  -- machine limit
+  -- machine limit (a fraction over zero packets counts as below)
   let mTotal := r.acct.normalSent + r.acct.paddingSent
-  if Fp.gt (Fp.val64 m.maxPaddingFrac) (.fin 0) && mTotal == 0 then true else
-  if Fp.gt (Fp.val64 m.maxPaddingFrac) (.fin 0) &&
+  if Fp.gt (Fp.val64 m.maxPaddingFrac) (.fin 0) && mTotal > 0 &&
       Fp.ge (Fp.div Fp.f64 (Fp.ofNat Fp.f64 r.acct.paddingSent) (Fp.ofNat Fp.f64 mTotal)) (Fp.val64 m.maxPaddingFrac)
   then false else
+  -- global limit
   let gTotal := s.paddingSent + s.normalSent
-  if Fp.gt (Fp.val64 s.maxPaddingFrac) (.fin 0) && gTotal == 0 then true else
-  if Fp.gt (Fp.val64 s.maxPaddingFrac) (.fin 0) &&
+  if Fp.gt (Fp.val64 s.maxPaddingFrac) (.fin 0) && gTotal > 0 &&
       Fp.ge (Fp.div Fp.f64 (Fp.ofNat Fp.f64 s.paddingSent) (Fp.ofNat Fp.f64 gTotal)) (Fp.val64 s.maxPaddingFrac)
   then false else
   decide (r.stateLimit > 0)
@@ -279,6 +278,47 @@ def applyOp (op : Operation) (cur change : Nat) : Nat :=
 
 /-! ### transition / update_counter (mutually recursive, structural on fuel) -/
 
+/-- the state-change block of `transition`: when the sampled state differs from the current one,
+    set it and resample the limit -/
+def enterState (mi : Nat) (m : Machine) (cur next : Nat) (s : Fw σ) : Fw σ :=
+  if cur ≠ next then
+    let s := s.modRt mi (fun r => { r with currentState := next })
+    match m.states[next]? with
+    | none => s.withFault .oob
+    | some nst =>
+      match nst.action with
+      | some a =>
+        let (l, s) := sampleLimit ρ a s
+        s.modRt mi (fun r => { r with stateLimit := l })
+      | none => s.modRt mi (fun r => { r with stateLimit := STATE_LIMIT_MAX })
+  else s
+
+/-- record a signal from machine `mi` -/
+def signalFrom (mi : Nat) (s : Fw σ) : Fw σ :=
+  { s with signalPending := match s.signalPending with
+      | none => some (.allExcept mi)
+      | some _ => some .all }
+
+/-- counter A part of `update_counter`; returns the new framework and whether A was zeroed -/
+def applyCounterA (mi : Nat) (c : Option Counter) (oldA oldB : Nat) (s : Fw σ) : Fw σ × Bool :=
+  match c with
+  | none => (s, false)
+  | some c =>
+    let (change, s) := if c.copy then (oldB, s) else sampleValue ρ c s
+    let newA := applyOp c.operation oldA change
+    let s := s.modRt mi (fun r => { r with counterA := newA })
+    if oldA ≠ 0 && newA = 0 && !s.zeroedA then ({ s with zeroedA := true }, true) else (s, false)
+
+/-- counter B part of `update_counter` -/
+def applyCounterB (mi : Nat) (c : Option Counter) (oldA oldB : Nat) (s : Fw σ) : Fw σ × Bool :=
+  match c with
+  | none => (s, false)
+  | some c =>
+    let (change, s) := if c.copy then (oldA, s) else sampleValue ρ c s
+    let newB := applyOp c.operation oldB change
+    let s := s.modRt mi (fun r => { r with counterB := newB })
+    if oldB ≠ 0 && newB = 0 && !s.zeroedB then ({ s with zeroedB := true }, true) else (s, false)
+
 mutual
 
 /-- returns the new framework and `true` iff `StateChange::Changed` -/
@@ -296,44 +336,28 @@ def transition : Nat → Nat → Event → Fw σ → Fw σ × Bool
       | none => (s.withFault .oob, false)
       | some none => (s, false)
       | some (some vec) =>
-        let (rbits, g) := ρ.u s.rng
-        let s := ({ s with rng := g }).push (.draw rbits)
-        match sampleState vec rbits with
+        let d := ρ.u s.rng
+        let s := ({ s with rng := d.2 }).push (.draw d.1)
+        match sampleState vec d.1 with
         | none => (s, false)
         | some next =>
           let s := s.push (.sampled mi ev.toNat next)
           if next = STATE_END then
             (s.modRt mi (fun r => { r with currentState := STATE_END }), true)
-          else if next = STATE_SIGNAL then
-            ({ s with signalPending := match s.signalPending with
-                | none => some (.allExcept mi)
-                | some _ => some .all }, false)
+          else if next = STATE_SIGNAL then (signalFrom mi s, false)
           else
-            let cur := r.currentState
-            -- state change: set state and resample the limit
-            let s :=
-              if cur ≠ next then
-                let s := s.modRt mi (fun r => { r with currentState := next })
-                match m.states[next]? with
-                | none => s.withFault .oob
-                | some nst =>
-                  match nst.action with
-                  | some a =>
-                    let (l, s) := sampleLimit ρ a s
-                    s.modRt mi (fun r => { r with stateLimit := l })
-                  | none => s.modRt mi (fun r => { r with stateLimit := STATE_LIMIT_MAX })
-              else s
+            let s := enterState ρ mi m r.currentState next s
             match s.rt[mi]? with
             | none => (s.withFault .oob, false)
             | some r1 =>
             match belowActionLimits s.g r1 m with
             | none => (s.withFault (if m.states[r1.currentState]?.isNone then .oob else .durOverflow), false)
             | some below =>
-            let (s, allow, chg) := updateCounter fuel mi s
-            let s := if allow && below then scheduleAction ρ mi next s else s
+            let res := updateCounter fuel mi s
+            let s := if res.2.1 && below then scheduleAction ρ mi next res.1 else res.1
             match s.rt[mi]? with
             | none => (s.withFault .oob, false)
-            | some r2 => (s, !(cur == r2.currentState && !chg))
+            | some r2 => (s, !(r.currentState == r2.currentState && !res.2.2))
     | _, _ => (s.withFault .oob, false)
 
 /-- returns (framework, allow_schedule, state_changed) -/
@@ -345,32 +369,14 @@ def updateCounter : Nat → Nat → Fw σ → Fw σ × Bool × Bool
       match m.states[r.currentState]? with
       | none => (s.withFault .oob, true, false)
       | some st =>
-        let oldA := r.counterA
-        let oldB := r.counterB
-        -- counter A
-        let (s, zA) :=
-          match st.counterA with
-          | none => (s, false)
-          | some c =>
-            let (change, s) := if c.copy then (oldB, s) else sampleValue ρ c s
-            let newA := applyOp c.operation oldA change
-            let s := s.modRt mi (fun r => { r with counterA := newA })
-            if oldA ≠ 0 && newA = 0 && !s.zeroedA then ({ s with zeroedA := true }, true) else (s, false)
-        -- counter B
-        let (s, zB) :=
-          match st.counterB with
-          | none => (s, false)
-          | some c =>
-            let (change, s) := if c.copy then (oldA, s) else sampleValue ρ c s
-            let newB := applyOp c.operation oldB change
-            let s := s.modRt mi (fun r => { r with counterB := newB })
-            if oldB ≠ 0 && newB = 0 && !s.zeroedB then ({ s with zeroedB := true }, true) else (s, false)
-        if zA || zB then
-          let (s, chg) := transition fuel mi .counterZero s
-          match s.actions[mi]? with
-          | none => (s.withFault .oob, true, chg)
-          | some a => (s, a.isNone, chg)
-        else (s, true, false)
+        let ra := applyCounterA ρ mi st.counterA r.counterA r.counterB s
+        let rb := applyCounterB ρ mi st.counterB r.counterA r.counterB ra.1
+        if ra.2 || rb.2 then
+          let res := transition fuel mi .counterZero rb.1
+          match res.1.actions[mi]? with
+          | none => (res.1.withFault .oob, true, res.2)
+          | some a => (res.1, a.isNone, res.2)
+        else (rb.1, true, false)
     | _, _ => (s.withFault .oob, true, false)
 
 end
@@ -472,11 +478,14 @@ def signalRound (s : Fw σ) : Fw σ :=
       | none => s
       | some x => (transition ρ FUEL x .signal s).1
 
+/-- the start of `trigger_events`: clear the slots and the counter-zero flags, take the new time -/
+def Fw.callStart (s : Fw σ) (t : Int) : Fw σ :=
+  { s with actions := s.actions.map (fun _ => none), zeroedA := false, zeroedB := false,
+           g := { s.g with now := t } }
+
 /-- `Framework::trigger_events`; the returned actions are `actionsOut` of the result -/
 def triggerEvents (es : List TEvent) (t : Int) (s : Fw σ) : Fw σ :=
-  let s := { s with actions := s.actions.map (fun _ => none), zeroedA := false, zeroedB := false, g := { s.g with now := t } }
-  let s := es.foldl (fun s e => processEvent ρ e s) s
-  signalRound ρ s
+  signalRound ρ (es.foldl (fun s e => processEvent ρ e s) (s.callStart t))
 
 end
 
@@ -486,29 +495,35 @@ def Fw.actionsOut {σ} (s : Fw σ) : List TAction := s.actions.filterMap id
 section
 variable {σ : Type} (ρ : Oracle σ)
 
+/-- the framework record built by `Framework::new` before the initial limits are sampled -/
+def Fw.init0 (machines : List Machine) (fp fb : F64) (t0 : Int) (rng : σ) : Fw σ :=
+  { machines := machines,
+    rt := machines.map fun m =>
+      ({ currentState := 0, stateLimit := 0, counterA := 0, counterB := 0,
+         acct := { paddingSent := 0, normalSent := 0, blockingDur := 0, machineStart := t0,
+                   allowedBlocked := m.allowedBlockedMicrosec * 1000 } } : Runtime),
+    actions := machines.map (fun _ => none),
+    g := { now := t0, maxPaddingFrac := fp, maxBlockingFrac := fb, normalSent := 0, paddingSent := 0,
+           blockingDur := 0, blockingStarted := t0, blockingActive := false, start := t0 },
+    signalPending := none, zeroedA := false, zeroedB := false, rng := rng, fault := none, log := [] }
+
+/-- sampling the limit of state 0 of machine `mi` at construction -/
+def initLimit (s : Fw σ) (mi : Nat) : Fw σ :=
+  match s.machines[mi]? with
+  | none => s.withFault .oob
+  | some m =>
+    match m.states[0]? with
+    | none => s.withFault .oob
+    | some st =>
+      match st.action with
+      | none => s
+      | some a =>
+        let (l, s) := sampleLimit ρ a s
+        s.modRt mi (fun r => { r with stateLimit := l })
+
 /-- `Framework::new` after validation succeeded (validation is modelled in `Validate.lean`) -/
 def Fw.init (machines : List Machine) (fp fb : F64) (t0 : Int) (rng : σ) : Fw σ :=
-  let rt := machines.map fun m =>
-    ({ currentState := 0, stateLimit := 0, counterA := 0, counterB := 0,
-       acct := { paddingSent := 0, normalSent := 0, blockingDur := 0, machineStart := t0,
-                 allowedBlocked := m.allowedBlockedMicrosec * 1000 } } : Runtime)
-  let s : Fw σ :=
-    { machines := machines, rt := rt, actions := machines.map (fun _ => none),
-      g := { now := t0, maxPaddingFrac := fp, maxBlockingFrac := fb, normalSent := 0, paddingSent := 0,
-             blockingDur := 0, blockingStarted := t0, blockingActive := false, start := t0 },
-      signalPending := none, zeroedA := false, zeroedB := false, rng := rng, fault := none, log := [] }
-  (List.range machines.length).foldl (fun s mi =>
-    match s.machines[mi]? with
-    | none => s.withFault .oob
-    | some m =>
-      match m.states[0]? with
-      | none => s.withFault .oob
-      | some st =>
-        match st.action with
-        | none => s
-        | some a =>
-          let (l, s) := sampleLimit ρ a s
-          s.modRt mi (fun r => { r with stateLimit := l })) s
+  (List.range machines.length).foldl (initLimit ρ) (Fw.init0 machines fp fb t0 rng)
 
 end
 end Mb
